@@ -142,7 +142,15 @@ func runC11Cell(srv *l2server, transport, point, cause, id string) string {
 			}
 		}
 		out.Close()
+		// the handler's deferred steps run one after the other: give them the same 2 s as everywhere else
 		got := snapshotResources()
+		for dl := time.Now().Add(2 * time.Second); time.Now().Before(dl); {
+			if got.conns <= base.conns && got.wsGauge <= base.wsGauge && got.lgGauge <= base.lgGauge && got.goroutines <= base.goroutines {
+				break
+			}
+			time.Sleep(10 * time.Millisecond)
+			got = snapshotResources()
+		}
 		st3 := func(ok bool) string {
 			if ok {
 				return "ok"
